@@ -769,7 +769,8 @@ func genTimeConv(r *repo) string {
 		run := p.mustFunc("clientStreamProcessorFMP4", "run")
 		_, txt := pinOf(p.fset, run.Body)
 		rejectsZero := regexp.MustCompile(`TimeScale == 0`).MatchString(txt)
-		skipsNil := regexp.MustCompile(`Codec == nil|codec == nil`).MatchString(txt)
+		skipsNil := regexp.MustCompile(`FromFMP4\(track\.Codec\) != nil`).MatchString(txt) &&
+			regexp.MustCompile(`p\.init\.Tracks = `).MatchString(txt)
 		fmt.Fprintf(&b, "/-- `clientStreamProcessorFMP4.run` rejects an init track with `TimeScale == 0` (repair of F9) -/\ndef fmp4RejectsZeroTimeScale : Bool := %v\n", rejectsZero)
 		fmt.Fprintf(&b, "/-- `clientStreamProcessorFMP4.run` does not expose init tracks whose codec `FromFMP4` maps to nil (repair of F8) -/\ndef fmp4SkipsUnsupportedTracks : Bool := %v\n\n", skipsNil)
 	}
